@@ -283,6 +283,21 @@ chk("C20", "model_checking",
     "DESIGN.md section 4, C20")
 
 
+chk("C21", "model_checking",
+    "spec/FileIO.tla models one read handle: cursor, bytes arrived, writer closed; environment actions Deliver(chunk) "
+    "and CloseWriter interleave with blocking Read(n) / ReadAll / ReadLine; TLC checks PrefixExactlyOnce and "
+    "ShortOnlyAtEOF under every delivery schedule for contents with and without newlines (up to 8.5 k states each). "
+    "Conformance: random binary / UTF-8 contents with sizes around the 4096-byte loop buffer and the 8192-byte "
+    "BufReader (to 3 x 8192 + 1) x random sequences of read(f, n), read(f), read_line(f), read_to_string(f) on files "
+    "(in-process) and on stdin fed through a pipe in random chunk schedules with pauses (through the binary); every "
+    "result is validated by spec/FileIOTrace.tla. Open-mode matrix mode x existed x 0-3 writes x flush through the "
+    "binary against AfterExit / OpenFails.",
+    "Byte-count reads on UTF-8 contents are kept on character boundaries (a string-returning call cannot return half a "
+    "character); only a finite set of schedules is realised - the required result is schedule-independent.",
+    "TLA+ state machine with environment interleavings model-checked by TLC; recorded call histories trace-validated by TLC",
+    "DESIGN.md section 4, C21")
+
+
 def main():
     props = [json.loads(l)["id"] for l in open(os.path.join(VERIF, "properties.jsonl"))]
     na = [{"property_id": p, "reason": NOT_APPLICABLE.get(p, "check not built yet in this round (planned, see DESIGN.md section 8)")}
